@@ -73,7 +73,7 @@ PROPS = {
     },
     "C01": {
         "pkg": "hreader", "test": "TestC01", "level": "exploration",
-        "quick": T(16, 50, timeout=900), "thorough": T(16, 1500, timeout=7000),
+        "quick": T(16, 50, timeout=900, fixed=["TestC01_LateConsumer"]), "thorough": T(16, 1500, timeout=7000, fixed=["TestC01_LateConsumer"]),
         "rule": "rapid-generated catalogs (1..3 pchannels per side, 1..3 collections x 1..2 shards on shared pchannels, default + named partition, default/named database, 40% skewed downstream placement, "
                 "3% late partition ids, 3% collections created downstream only by the create event), per-shard scripts of 1..7 packs (BeginTs=0 first packs, 0..3 messages of insert/delete/tick/create*/unsupported, "
                 "equal-timestamp groups, clock skew 0..120 s, message positions nil/pchannel/vchannel) and a drawn interleaving of StartReadCollection/AddPartition/feed actions against the real replicateChannelManager; "
